@@ -37,6 +37,7 @@ def script_for(entry, mod, plan, inst=0, limit=400):
     """Build a driver script for a corpus module from its commands. Returns (script, ncalls)."""
     lines = ['I %d' % inst]
     n = 0
+    entry['_meta'] = meta = {}
     for kind, field, args, expected, text in entry['commands'][:limit]:
         if field not in plan.export_index:
             continue
@@ -45,6 +46,7 @@ def script_for(entry, mod, plan, inst=0, limit=400):
             continue
         lines.append(('c %d %d %s' % (inst, plan.fk(field), ' '.join(hex(v) for _, v in args))).rstrip())
         n += 1
+        meta[len(lines)] = (kind, expected, text)
     for i, r in enumerate(plan.memrefs):
         lines.append('m %d %d' % (inst, i))
     lines.append('t')
@@ -82,3 +84,68 @@ def runnable(entry):
     # imported tables must be large enough for element segments is not guaranteed by the generic driver: skip odd cases
     plan = e2e.Plan(m)
     return m, plan
+
+
+def nan_tolerant_equal(a, b, meta):
+    """Line equality, except that float results whose spec expectation is nan:canonical / nan:arithmetic compare by class."""
+    if a == b:
+        return True
+    pa, pb = a.split(' -> '), b.split(' -> ')
+    if len(pa) != 2 or len(pb) != 2 or pa[0] != pb[0]:
+        return False
+    try:
+        step = int(a.split(' ')[0])
+    except ValueError:
+        return False
+    kind, expected, text = meta.get(step, (None, None, None))
+    if not expected or not str(expected[0].get('value', '')).startswith('nan:'):
+        return False
+    ra, rb = pa[1], pb[1]
+    if ':' not in ra or ':' not in rb:
+        return False
+    ta, va = ra.split(':')
+    tb, vb = rb.split(':')
+    if ta != tb or ta not in ('f32', 'f64'):
+        return False
+    isn = wasm.is_nan32 if ta == 'f32' else wasm.is_nan64
+    return isn(int(va, 16)) and isn(int(vb, 16))
+
+
+def check_expected(line, meta):
+    """Compare one output line with the spec-authored expectation. Returns None if fine / not applicable, else a message."""
+    try:
+        step = int(line.split(' ')[0])
+    except ValueError:
+        return None
+    if step not in meta or ' -> ' not in line:
+        return None
+    kind, expected, text = meta[step]
+    res = line.split(' -> ')[1]
+    if kind == 'assert_trap':
+        want = {'integer divide by zero': 'trap:divzero', 'integer overflow': 'trap:overflow', 'unreachable': 'trap:unreachable',
+                'invalid conversion to integer': 'trap:invalidconv'}
+        for k, v in want.items():
+            if k in (text or ''):
+                return None if res == v else 'expected %s, got %s' % (v, res)
+        return None
+    if kind != 'assert_return' or expected is None:
+        return None
+    if len(expected) == 0:
+        return None if res == 'void' else 'expected no result, got %s' % res
+    e = expected[0]
+    if ':' not in res or res.startswith('trap'):
+        return 'expected a value, got %s' % res
+    t, v = res.split(':')
+    v = int(v, 16)
+    if t != e['type']:
+        return 'expected type %s, got %s' % (e['type'], t)
+    ev = str(e.get('value'))
+    if ev.startswith('nan:'):
+        # C02/C11 only demand "a NaN" where the specification yields one (payload and quietness are not judged)
+        ok = wasm.is_nan32(v) if t == 'f32' else wasm.is_nan64(v)
+        return None if ok else 'expected %s, got %#x' % (ev, v)
+    try:
+        want = int(ev)
+    except ValueError:
+        return None
+    return None if want == v else 'expected %#x, got %#x' % (want, v)
